@@ -11,6 +11,7 @@ import traceback
 
 sys.path.insert(0, os.path.dirname(os.path.abspath(__file__)))
 from common import *  # noqa
+from libsum import NoLivePath
 
 LEVELS = {}
 
@@ -35,6 +36,15 @@ def main():
         print("replaying %s %s on the current tree" % chk.replay_key)
     try:
         return mod.run(chk, tier)
+    except NoLivePath as e:
+        # a row wanted the normal-completion path of a function and there is none: with valid arguments the operation
+        # always ends in the assertion handler
+        fn = e.fn
+        chk.violation("E2.nopath", "nopath:" + (fn.get("base") or fn.get("qn", "?"))[:120], "%s:%s" % (rel(fn.get("file", "?")), fn.get("line")),
+                      "no path of %s completes without invoking the assertion handler: an asserted condition contradicts what "
+                      "the operation itself just established" % fn.get("qn", "?")[:200])
+        return chk.finish(explanation="aborted at the first function without a completing path; rules evaluated before it are listed",
+                          rule_text="partial run")
     except AnalysisBroken as e:
         # an engine could not run; whatever was already decided is still reported (violations win over brokenness)
         chk.broke(str(e))
